@@ -123,10 +123,15 @@ def witness_corpus(pid, sources, jobs=16):
     for d in sorted(glob.glob(os.path.join(VERIF, "refactorings", "*", "patch.diff"))):
         name = "refactoring:" + os.path.basename(os.path.dirname(d))
         ov = udiff.apply(sources, open(d, encoding="utf-8").read())
+        try:
+            rmeta = json.load(open(os.path.join(os.path.dirname(d), "meta.json")))
+        except Exception:
+            rmeta = {}
         if ov is None:
             skipped.append(name)
         else:
-            work.append(("silent", (pid, name, ov)))
+            # a refactoring recorded as "this check cannot decide it" may answer cannot-decide, never VIOLATION
+            work.append(("undecided-ok" if pid in rmeta.get("checks_answering_cannot_decide", []) else "silent", (pid, name, ov)))
     # composed variants: a refactoring of this property followed by a breaking change this check reports -- the
     # refactoring must not make the check blind (pairs whose hunks no longer apply are skipped silently)
     for rd in sorted(glob.glob(os.path.join(VERIF, "refactorings", pid + "-*", "patch.diff"))):
@@ -162,6 +167,8 @@ def witness_corpus(pid, sources, jobs=16):
             problems.append(f"witness mutation '{name}' applied but was not reported ({status}: {info[:1]})")
         if kind == "silent" and status != "pass":
             problems.append(f"equivalence refactoring '{name}' is not accepted silently ({status}: {info[:2]})")
+        if kind == "undecided-ok" and status not in ("pass", "error"):
+            problems.append(f"equivalence refactoring '{name}' (recorded as not decided) is reported ({status}: {info[:2]})")
     return {"witnesses_applied": len(work), "witnesses_not_applicable": skipped, "witness_results": report}, problems
 
 
